@@ -496,7 +496,7 @@ fn rng_u32(a: usize, b: usize) -> u32 { ((a as u32).wrapping_mul(2654435761) ^ (
 fn main() {
     let args: Vec<String> = std::env::args().collect();
     let cmd = args.get(1).map(|s| s.as_str()).unwrap_or("");
-    let seed: u64 = args.get(3).and_then(|s| s.parse().ok()).unwrap_or(1) | 1;
+    let seed: u64 = (if cmd == "replay" { args.get(4) } else { args.get(3) }).and_then(|s| s.parse().ok()).unwrap_or(1) | 1;
     let mut rng = Rng(seed.wrapping_mul(0x9E3779B97F4A7C15) | 1);
     if std::env::var("WITNESS_DEBUG").is_err() {
         std::panic::set_hook(Box::new(|_| {}));
@@ -528,6 +528,12 @@ fn main() {
             "page" => { let t: Vec<&str> = inp.split_whitespace().collect(); let d: Vec<u32> = t[1].split('x').map(|x| x.parse().unwrap()).collect(); check_page(t[3].parse().unwrap_or(0), d[0], d[1]) }
             "message" => search_message(&mut rng),
             "signtype" => search_signtype(&mut rng),
+            // these domains have no single-input form: the deterministic search (same seed) is repeated on the current code
+            "e2e" => search_e2e(&mut rng, 110000 * scale),
+            "stream" => io_domains::search_stream(&mut rng, 4000 * scale),
+            "serial" => io_domains::search_serial(&mut rng, 2 * scale),
+            "bridge" => io_domains::search_bridge(&mut rng, 40 * scale),
+            "serial-path" => io_domains::search_serial_path(&mut rng),
             _ => None,
         };
         match r { Some(c) => { report(&c); std::process::exit(1) } None => println!("{{\"found\":false}}") }
